@@ -17,6 +17,12 @@ static ident_hash_elem_t **ident_hash_tail;  /* ident hash, tail of permanent id
 
 static ident_hash_elem_t *ident_dirty_list = 0;
 
+#ifdef NEOLITH_VERIF
+/* verification hook (see lib/lpc/compiler.h) */
+extern void (*verif_compiler_trace)(const char *event, long cursor, long size);
+extern void *verif_compiler_trace_subject;
+#endif
+
 /* identifier hash table stuff, size must be an even power of two */
 #define IDENT_HASH_SIZE 1024
 #define IdentHash(s) (whashstr((s), 20) & (IDENT_HASH_SIZE - 1))
@@ -168,6 +174,10 @@ void free_unused_identifiers () {
   lname_linked_buf_t *lnb, *lnbn;
   int i;
 
+#ifdef NEOLITH_VERIF
+  if (verif_compiler_trace)
+    verif_compiler_trace ("ident.free_unused", 0, 0);
+#endif
   /* clean up dirty idents */
   while (ident_dirty_list)
     {
@@ -186,6 +196,14 @@ void free_unused_identifiers () {
           ident_dirty_list->dn.class_num = -1;
           ident_dirty_list->sem_value--;
         }
+#ifdef NEOLITH_VERIF
+      if (verif_compiler_trace)
+        {
+          verif_compiler_trace_subject = ident_dirty_list;
+          verif_compiler_trace ("ident.clean", ident_dirty_list->sem_value, 0);
+          verif_compiler_trace_subject = 0;
+        }
+#endif
       ident_dirty_list = ident_dirty_list->next_dirty;
     }
 
